@@ -364,6 +364,19 @@ func TestC15(t *testing.T) {
 		}
 		r.Case("sharded/"+d.id(), d, func(c *mon.Case) {
 			names := namesFor(c, d)
+			// one member has a twin with the very same 64-bit hash that is NOT a member: it is probed
+			// after the member has been found
+			twins := gen.CollidingNames(c.Rand(), 2)
+			inSet := false
+			for _, n := range names {
+				if n == twins[0] || n == twins[1] {
+					inSet = true
+				}
+			}
+			if !inSet && len(names) > 0 {
+				names = append(names, twins[0])
+				c.Count("hash_twin_probes", 1)
+			}
 			for wi, writer := range []string{"builder", "reference"} {
 				st := store.New()
 				entries, model, sizes := childEntries(st, names)
@@ -398,6 +411,9 @@ func TestC15(t *testing.T) {
 					probes = append(probes, n+"x", oracle0(d.Fanout)+n)
 				}
 				probes = append(probes, "", "0", "00", "000")
+				if !inSet {
+					probes = append(probes, twins[1])
+				}
 				// a transient load failure during the first Length() must not leave a wrong memoised count behind
 				if _, shards, _, err := walkerFor(st).HamtWalk(root); err == nil && len(shards) > 2 {
 					ls := st.LinkSystem(false)
